@@ -66,7 +66,7 @@ impl Fam {
         } else if name == "tiny" {
             // an integer grid with spacing 2^k: squared distances stay exactly representable (and
             // far from under/overflow) in both scalar types, but are of the order 1e-7 … 1e-12
-            *rng.pick(&[-11, -13, -16, -20])
+            *rng.pick(&[-11, -13, -16, -20, -27, -30])
         } else {
             0
         };
@@ -1124,7 +1124,9 @@ pub fn history(mode: &str, idx: u64, rng: &mut Rng, thorough: bool, timeout_ms: 
             let fam = if mode == "splithull" {
                 Fam::choose(rng, &["unif", "unif", "grid"])
             } else if mode == "split" {
-                Fam::choose(rng, &["grid", "grid", "grid", "circle", "unif"])
+                // `tiny`: the integer grid scaled by a power of two down to 1e-9 (exact, hence as
+                // well conditioned as the grid itself; absolute thresholds in the code show here)
+                Fam::choose(rng, &["grid", "grid", "grid", "circle", "unif", "tiny"])
             } else {
                 Fam::choose(rng, &["grid", "grid", "grid", "grid", "line", "circle", "unif", "neardeg", "scaled", "wide"])
             };
